@@ -53,6 +53,19 @@ def run(c):
     c01.net_runs(c, cfgs, 60 if th else 6, ("net:liveness", "net:panic"))
     if not th:
         c01.net_runs(c, ["7eq-byz2", "5w-byz"], 2, ("net:liveness", "net:panic"))
+    # a Byzantine block part must not be able to block a height: the proposal's part set accepts exactly the parts that
+    # belong at their index (a poisoned slot refuses the honest part as a duplicate, the set completes and can never be
+    # decoded, the commit step never resets it).  The network runs use single-part blocks; the part set itself is
+    # specified in specs/partset/PartSet.tla: its complete graph for 2 and 3 parts (genuine, re-indexed, foreign,
+    # damaged parts in every order) is replayed into the real PartSet (the replay C13 uses)
+    import checks.C13 as c13
+    for total in (2, 3):
+        dump = os.path.join(c.scratch, "ps-%d.dump" % total)
+        tag = "join: MC_PartSet total=%d" % total
+        r = c.tlc("partset", "ps.cfg", module="MC_PartSet", files={"ps.cfg": c13.cfg_partset(total, 1, 0)}, dump_to=dump, timeout=3000, tag=tag)
+        c13.must_hold(c, r, tag)
+        c.absorb(c.gotest("partset", "TestReplay", env=dict(PS_DUMP=dump, PS_TOTAL=total, PS_STRIDE=1), timeout=3000, tag="join: replay " + tag))
+        os.remove(dump)
     # REAL reactor networks (ConsensusManager gossip, p2p switches over net.Pipe, real ticker, real receiveRoutine, file
     # WAL): partition-heal, restart, crash at the gate, steered lag-by-one, late joiners, sparse topologies; every node's
     # handler calls are explained by TLC; the vote-gossip logic is specified in GossipVotes.tla and replayed
